@@ -289,13 +289,20 @@ class C17(Family):
     # (_process_subsys_index, NamedSignal._parse_key) on every run and proved equal to the model
     # (`processIdx`, `parseSel`) in Props/C17Gen.lean
     extra_modules = ["CtrlVerif.Props.C17Gen"]
+    # second part of the tie (tag py2lean-getitem): the three `__getitem__` methods (control/statesp.py,
+    # xferfcn.py, frdata.py) are regenerated as Generated/GetitemSS|TF|FRD.lean and proved equal to the
+    # model `getitem ssCtor / tfCtor / frdCtor` in Props/C17GenItem*.lean
+    extra_modules += ["CtrlVerif.Props.C17GenItemSS", "CtrlVerif.Props.C17GenItemTF",
+                      "CtrlVerif.Props.C17GenItemFRD", "CtrlVerif.Props.C17GenItem"]
 
     def pre_build(self):
         import os
-        from core import py2lean_select, leanproj
-        problems, self.gen_info = py2lean_select.regenerate(
-            os.environ.get("VERIF_REPO") or "/repo", leanproj.LEAN, "C17")
-        return problems
+        from core import py2lean_select, py2lean_getitem, leanproj
+        repo = os.environ.get("VERIF_REPO") or "/repo"
+        problems, self.gen_info = py2lean_select.regenerate(repo, leanproj.LEAN, "C17")
+        p2, i2 = py2lean_getitem.regenerate(repo, leanproj.LEAN)
+        self.gen_info.update(i2)
+        return problems + p2
 
     exhaustive = True
     externals = ["numpy basic/fancy indexing and Python list/range slicing (their index semantics are the "
